@@ -756,6 +756,82 @@ def run(ctx):
                                     + diff(got, base[ti][i]), {"cancelled": S.cancels > 0})
                 ctx.probes["post_run_repeats"] += 1
     ctx.steps += sum(len(s) for s in scripts)
+    query_toggle(ctx, W, env, stores, results, t)
+
+
+def query_toggle(ctx, W, env, stores, results, t):
+    """history on ONE operator object: query it where the action is applicable, then where it is not, then where it is
+    again - and apply it there.  Every answer must be the one a fresh operator gives (repeating a call returns the same
+    result whatever was asked in between).  States: the initial state and the states the script produced."""
+    lib = L()
+    pool = [(env.s0, interp.init_state(W.P))]
+    for ti, store in enumerate(stores):
+        for i, ent in store.items():
+            r = results[ti][i]
+            if ent.get("state") is not None and r and r[0] == "state":
+                pool.append((ent["state"], r[1]))
+    pool = pool[:6]
+    for _ in range(8):
+        c = G.gen_call(t, W.D, W.P)
+        if c is None:
+            continue
+        act = W.action(c[0])
+        try:
+            app = [interp.applicable(A, act, c[1], W.D, W.objs) for _, A in pool]
+            for (_, A), a in zip(pool, app):
+                if a:
+                    interp.successor(A, act, c[1], W.D, W.objs)
+        except (interp.Inconsistent, interp.Undefined):
+            continue
+        yes = [st for (st, _), a in zip(pool, app) if a]
+        no = [st for (st, _), a in zip(pool, app) if not a]
+        if no and not yes:
+            # no state of the script satisfies the precondition: build one from a state that does not
+            Bs = C.force_applicable(pool[0][1], act, c[1], W)
+            try:
+                if interp.applicable(Bs, act, c[1], W.D, W.objs):
+                    interp.successor(Bs, act, c[1], W.D, W.objs)
+                    pb = C.parse_problem(ctx, W.problem_text(Bs), env.d, "toggle.pddl")
+                    yes = [C.initial_state(pb)]
+            except (interp.Inconsistent, interp.Undefined):
+                pass
+            except Exception:
+                pass
+        if not yes or not no:
+            continue
+        B, A_ = t.pick(yes), t.pick(no)
+        site = "Operator.is_applicable / apply (one operator queried on several states)"
+
+        def fresh():
+            return lib.Operator(env.d.actions[c[0]], env.d, list(c[1]), env.p.objects)
+        try:
+            want_b, want_a = bool(fresh().is_applicable(B)), bool(fresh().is_applicable(A_))
+            want_state = C.abs_state(fresh().apply(B.copy()), site, ID)
+            op = fresh()
+            got = [bool(op.is_applicable(B)), bool(op.is_applicable(A_)), bool(op.is_applicable(B))]
+            if t.chance(1, 2):
+                try:
+                    op.apply(A_.copy())  # refused (or not): the operator stays in the caller's hands
+                except ValueError:
+                    pass
+            got.append(bool(op.is_applicable(B)))
+            got_state = C.abs_state(op.apply(B.copy()), site, ID)
+        except Violation:
+            raise
+        except Exception as e:
+            # a fresh operator failing on its own is not a purity matter; an operator failing only after the history is
+            try:
+                fresh().apply(B.copy())
+            except Exception:
+                continue
+            raise Violation("C07/result-differs-from-isolated-call", site,
+                            f"{C.fmt_call(*c)}: {type(e).__name__} after a history of queries, a fresh operator succeeds")
+        ctx.probes["query_toggle_checked"] += 1
+        if got != [want_b, want_a, want_b, want_b] or not interp.state_eq(got_state, want_state):
+            raise Violation("C07/result-differs-from-isolated-call", site,
+                            f"{C.fmt_call(*c)}: answers {got} on states (B, A, B, B), fresh operators say "
+                            f"B:{want_b} A:{want_a}; successor of B {'equal' if interp.state_eq(got_state, want_state) else 'differs: ' + interp.state_diff(got_state, want_state)}")
+        return
 
 
 def in_state_abs(base, scripts, ti, sref, W):
